@@ -35,6 +35,26 @@ def type_match(type_input: Type, type_reference: type) -> bool:
     return isinstance(type_input, type) and issubclass(type_input, type_reference)
 
 
+def check_subclass(type_input: type, attr_type: Type) -> bool:
+    """
+    Check whether the class `type_input` is acceptable for `Type[attr_type]`:
+    any class is for `Any` (or a type variable), a union accepts the classes
+    accepted by one of its members, and otherwise `type_input` must be a
+    subclass of `attr_type`.
+    """
+    if attr_type is Any or isinstance(attr_type, TypeVar):
+        return True
+
+    if (
+        sys.version_info >= (3, 10)
+        and isinstance(attr_type, types.UnionType)
+        or getattr(attr_type, "__origin__", None) is Union
+    ):
+        return any(check_subclass(type_input, type_) for type_ in attr_type.__args__)
+
+    return issubclass(type_input, attr_type)
+
+
 def check_type(value: Any, attr_type: Type) -> bool:
     """
     Check whether a given object `value` matches the provided `attr_type`.
@@ -84,7 +104,7 @@ def check_type(value: Any, attr_type: Type) -> bool:
                         if not check_type(item, attr_type.__args__[i]):
                             return False
             elif attr_type.__origin__ == type:
-                if not issubclass(value, attr_type.__args__[0]):
+                if not check_subclass(value, attr_type.__args__[0]):
                     return False
 
             return True
